@@ -80,10 +80,32 @@ def generate(rng, tier):
                 lines = sl + ["X 0 0"] + regs + ["FAILAT %s" % ("-" if k is None else k), "PB 0 " + hx(text), "D 0"] + setters[:3] + ["D 0", "F 0"]
                 cases.append(Case("k%d" % n, lines, {"k": k, "text": text, "nregs": len(regs)}))
                 n += 1
+    # a function callback that itself parses a text containing further function calls into a second context, and then
+    # looks at its own arguments again: they are still the ones it was called with
+    nschema = [Opt("i", "int", 0, 0), Opt("hook", "func", 0, None, "U"), Opt("g", "func", 0, None, "U"),
+               Opt("sec", "sec", 0, None, "-", [Opt("hook", "func", 0, None, "U")])]
+    inner = [b'hook("in1")\n', b'hook("in1", "in2", "in3", "in4", "in5", "in6", "in7", "in8", "in9")\ng()\n', b'g("a") g("b", "c")\ni = 3\n',
+             b'sec { hook("deep", "er") }\n', b'hook("x"\n']
+    hosts = [b'hook("%s", "second", "third")\ni = 1\n', b'g("zero") hook("%s", "2") g("after", "wards")\n',
+             b'sec { hook("%s", "s2", "s3", "s4") }\nhook("tail")\n', b'hook("%s")\nhook("%s", "again")\n']
+    for host in hosts:
+        for it in inner:
+            arg = (b"nest:" + it).replace(b"\\", b"\\\\").replace(b'"', b'\\"').replace(b"\n", b"\\n")
+            lines = schema_lines(nschema) + ["X 0 0", "X 1 0", "PB 0 " + hx(host.replace(b"%s", arg)), "D 0", "D 1", "F 0", "F 1"]
+            cases.append(Case("nest%d" % n, lines, {"k": None, "text": host, "nregs": 0, "nested": True}))
+            n += 1
     return cases
 
 
 def project(lines, case):
+    if case.meta.get("nested"):
+        # the model does not run the nested parse: context 1's dump and the nested invocations are the harness' business
+        out, skip = [], False
+        for l in lines:
+            if l.startswith(("I ", "G ", "T nest ")):
+                continue
+            out.append(l)
+        return [l for l in out if l.startswith(("R ", "H "))]
     return [l for l in lines if not (l.startswith("I ") or l.startswith("G "))]
 
 
